@@ -774,30 +774,32 @@ impl KotoIterator for Skip {
 
     fn next_back(&mut self) -> Option<Output> {
         // Ensure the forward output has been skipped before yielding output from the back
-        if let Some(error) = self.skip_remaining() {
-            return Some(error);
+        match self.skip_remaining() {
+            Ok(()) => self.iter.next_back(),
+            Err(result) => result,
         }
-
-        self.iter.next_back()
     }
 }
 
 impl Skip {
     // Skips over the values that still need to be skipped
     //
-    // If one of the skipped values is an error then it's returned rather than being discarded.
-    fn skip_remaining(&mut self) -> Option<Output> {
+    // Err is returned if iteration can't continue after skipping:
+    // - If one of the skipped values is an error then it's passed on rather than being discarded.
+    // - If the input runs out while skipping then None is passed on.
+    fn skip_remaining(&mut self) -> StdResult<(), Option<Output>> {
         while self.remaining > 0 {
             self.remaining -= 1;
             match self.iter.next() {
-                Some(error @ Output::Error(_)) => return Some(error),
+                Some(error @ Output::Error(_)) => return Err(Some(error)),
                 Some(_) => {}
                 None => {
                     self.remaining = 0;
+                    return Err(None);
                 }
             }
         }
-        None
+        Ok(())
     }
 }
 
@@ -805,11 +807,10 @@ impl Iterator for Skip {
     type Item = Output;
 
     fn next(&mut self) -> Option<Self::Item> {
-        if let Some(error) = self.skip_remaining() {
-            return Some(error);
+        match self.skip_remaining() {
+            Ok(()) => self.iter.next(),
+            Err(result) => result,
         }
-
-        self.iter.next()
     }
 
     fn size_hint(&self) -> (usize, Option<usize>) {
